@@ -759,7 +759,7 @@ func main() {
 	directedMulti(out, r.Fork())
 	nG, nU, nC, nM := 130, 130, 140, 50
 	if opts.Thorough() {
-		nG, nU, nC, nM = 5000, 5000, 5000, 2000
+		nG, nU, nC, nM = 4000, 4000, 3000, 1000
 	}
 	// small histories first
 	for i := 0; i < nG+nU; i++ {
